@@ -53,6 +53,7 @@ var c18names = []string{"name", "title", "v1", "v2", "city", "n"}
 
 func (c18) Gen(r *sim.Rand, c *sim.Case, tier string) {
 	g := world.NewGen(r.Fork())
+	g.Extra = true
 	g.Alpha = []int{0, 4}
 	g.Fam = world.FBody | world.FParaFmt
 	for _, f := range []int{world.FTable, world.FTableFmt, world.FPage, world.FImage} {
